@@ -30,6 +30,7 @@ import (
 	"sort"
 	"strconv"
 	"strings"
+	"sync"
 	"testing"
 	"unicode/utf8"
 
@@ -1159,9 +1160,25 @@ func c47Cut(s string, n int) string {
 
 func (x *c47Run) ev(k string, n int64) { x.events[k] += n }
 
+// c47Reported remembers the keys already reported with full detail in this process: the
+// runtime keeps one replay per key, so later hits only need to be counted.
+var (
+	c47RepMu    sync.Mutex
+	c47Reported = map[string]bool{}
+)
+
 func (x *c47Run) viol(key, format string, a ...any) {
 	x.events["VIOLATION_"+key]++
-	x.c.Violation(key, format, a...)
+	c47RepMu.Lock()
+	first := !c47Reported[key] || x.r.Replay != nil
+	if first {
+		c47Reported[key] = true
+		x.c.Violation(key, format, a...)
+	}
+	c47RepMu.Unlock()
+	if !first {
+		x.c.Violation(key, "(same kind as the first report of this key)")
+	}
 }
 
 func (x *c47Run) do(method, p, depth, body string) (int, string) {
@@ -1230,6 +1247,12 @@ func (x *c47Run) genPatch(p string, pool []xml.Name, maxBlocks, maxProps int, li
 // applyPatch sends the PROPPATCH and updates the model according to its documented outcome.
 func (x *c47Run) applyPatch(p string, pt *c47Patch) (nontrivial bool, sig uint64) {
 	body, w := c47Doc(x.rng, c47PatchDoc(pt))
+	return x.applyPatchBody(p, pt, body, w)
+}
+
+// applyPatchBody is applyPatch for a request whose spelling is already fixed (body must spell
+// pt; that is checked).
+func (x *c47Run) applyPatchBody(p string, pt *c47Patch, body string, w *c47W) (nontrivial bool, sig uint64) {
 	hs := fnv.New64a()
 	hasLive, nestedSame := false, false
 	for _, b := range pt.Blocks {
@@ -1659,6 +1682,52 @@ func c47Pool(rng *rand.Rand, n int) []xml.Name {
 	return out
 }
 
+type c47DirectedCase struct {
+	Space, Local string
+	PropLang     string
+	Body         string
+	Want         []*c47Node
+	AttrCDEnd    bool
+}
+
+func c47PU(inner string) string {
+	return `<?xml version="1.0" encoding="utf-8"?><d:propertyupdate xmlns:d="DAV:"><d:set><d:prop>` + inner + `</d:prop></d:set></d:propertyupdate>`
+}
+
+func c47EA(space, local string, attrs []c47Attr, kids ...*c47Node) *c47Node {
+	e := c47E(space, local, kids...)
+	e.Attrs = attrs
+	return e
+}
+
+var c47Directed = []c47DirectedCase{
+	{Space: "urn:p", Local: "foo", Body: c47PU(`<p:foo xmlns:p="urn:p"><x>t</x></p:foo>`),
+		Want: []*c47Node{c47E("", "x", c47T("t"))}},
+	{Space: "urn:p", Local: "foo", Body: c47PU(`<p:foo xmlns:p="urn:p"><p:foo>in</p:foo>out</p:foo>`),
+		Want: []*c47Node{c47E("urn:p", "foo", c47T("in")), c47T("out")}},
+	{Space: "urn:p", Local: "foo", Body: c47PU(`<p:foo xmlns:p="urn:p"><p:x a="]]>"/></p:foo>`), AttrCDEnd: true,
+		Want: []*c47Node{c47EA("urn:p", "x", []c47Attr{{Local: "a", Value: "]]>"}})}},
+	{Space: "urn:p", Local: "foo", Body: c47PU(`<p:foo xmlns:p="urn:p">&lt;&amp;&gt;&quot;&apos;</p:foo>`),
+		Want: []*c47Node{c47T(`<&>"'`)}},
+	{Space: "urn:p", Local: "foo", Body: c47PU(`<p:foo xmlns:p="urn:p">&#60;&#x26;&#62;&#x22;&#39;&amp;lt;</p:foo>`),
+		Want: []*c47Node{c47T(`<&>"'&lt;`)}},
+	{Space: "urn:p", Local: "foo", Body: c47PU(`<p:foo xmlns:p="urn:p"><![CDATA[<a>&amp;]]]]><![CDATA[>]]></p:foo>`),
+		Want: []*c47Node{c47T("<a>&amp;]]>")}},
+	{Space: "urn:notdav", Local: "foo", Body: c47PU(`<D:foo xmlns:D="urn:notdav"><D:bar xmlns:D="DAV:" D:k="v"/><D:baz/></D:foo>`),
+		Want: []*c47Node{c47EA(c47DAV, "bar", []c47Attr{{Space: c47DAV, Local: "k", Value: "v"}}), c47E("urn:notdav", "baz")}},
+	{Space: c47DAV, Local: "mydead", PropLang: "en", Body: `<D:propertyupdate xmlns:D="DAV:"><D:set><D:prop xml:lang="en"><D:mydead>v<D:href>/x</D:href></D:mydead></D:prop></D:set></D:propertyupdate>`,
+		Want: []*c47Node{c47T("v"), c47E(c47DAV, "href", c47T("/x"))}},
+	{Space: "urn:p", Local: "foo", Body: c47PU("<p:foo xmlns:p=\"urn:p\"> \n\t</p:foo>"),
+		Want: []*c47Node{c47T(" \n\t")}},
+	{Space: "urn:p", Local: "foo", Body: c47PU(`<p:foo xmlns:p="urn:p"/>`), Want: nil},
+	{Space: "urn:other", Local: "getcontentlength", Body: c47PU(`<getcontentlength xmlns="urn:other">x</getcontentlength>`),
+		Want: []*c47Node{c47T("x")}},
+	{Space: "", Local: "plain", Body: `<propertyupdate xmlns="DAV:"><set><prop><plain xmlns="">v<sub/></plain></prop></set></propertyupdate>`,
+		Want: []*c47Node{c47T("v"), c47E("", "sub")}},
+	{Space: "http://example.com/D", Local: "D", Body: c47PU(`<D xmlns="http://example.com/D" xmlns:q='http://example.com/?a=1&amp;b="2"'><q:e q:a="&lt;&#9;&#10;'"/>` + "\u00e9\U0010FFFF" + `&#13;</D>`),
+		Want: []*c47Node{c47EA(`http://example.com/?a=1&b="2"`, "e", []c47Attr{{Space: `http://example.com/?a=1&b="2"`, Local: "a", Value: "<\t\n'"}}), c47T("\u00e9\U0010FFFF\r")}},
+}
+
 func TestVerif_C47(t *testing.T) {
 	r := verifrt.Start(t, "C47")
 	defer r.Finish()
@@ -1799,9 +1868,35 @@ func TestVerif_C47(t *testing.T) {
 		x.verify("/", "infinity", "allprop", nil, true)
 	}
 
-	r.CasesParallel("single", r.N(6000, 120000), 0, single)
-	r.CasesParallel("history", r.N(700, 12000), 0, history)
+	// A few hand-written requests: the smallest spelling of each hostile shape, so that a
+	// failure of one of them replays as a three-line document.
+	r.Cases("directed", len(c47Directed), func(c *verifrt.Case) {
+		d := c47Directed[c.Index]
+		x := c47NewRun(r, c, []string{"/f.txt"})
+		defer x.flush()
+		x.ev("directed_cases", 1)
+		name := xml.Name{Space: d.Space, Local: d.Local}
+		st := c47PropReq{Name: name, Value: d.Want}
+		blk := c47Block{Props: []c47PropReq{st}}
+		if d.PropLang != "" {
+			l := d.PropLang
+			blk.PropLang = &l
+		}
+		pt := &c47Patch{Blocks: []c47Block{blk}}
+		nt, sig := x.applyPatchBody("/f.txt", pt, d.Body, &c47W{attrCDEnd: d.AttrCDEnd})
+		x.verify("/f.txt", "0", "prop", []xml.Name{name}, false)
+		x.verify("/f.txt", "0", "allprop", nil, false)
+		r.EvalHash(nt, sig)
+		rm := &c47Patch{Blocks: []c47Block{{Remove: true, Props: []c47PropReq{{Name: name}}}}}
+		nt, sig = x.applyPatch("/f.txt", rm)
+		x.verify("/f.txt", "0", "prop", []xml.Name{name}, false)
+		r.EvalHash(nt, sig)
+	})
 
+	r.CasesParallel("single", r.N(3000, 36000), 0, single)
+	r.CasesParallel("history", r.N(400, 4800), 0, history)
+
+	r.Require("directed_cases", int64(len(c47Directed)))
 	r.Require("proppatch_requests", 5000)
 	r.Require("values_compared", 10000)
 	r.Require("values_equal_with_nested_elements", 1000)
